@@ -25,6 +25,8 @@ pub struct ExcSpec {
     pub address: u64,
     pub nparams: u32,
     pub info: [u64; 15],
+    /// (byte offset in the context, little/big-endian u64 value) patches, e.g. amd64 rbx at 144
+    pub ctx_patch: Vec<(usize, u64)>,
 }
 #[derive(Clone, Debug, Default)]
 pub struct RegionSpec { pub base: u64, pub size: u64, pub protection: u32, pub state: u32 }
@@ -68,6 +70,17 @@ pub fn arch_id(cpu: &str) -> u16 {
 }
 
 /// A CPU context for `cpu`; `ok = false` clears the context flags so that the reader rejects it.
+pub fn context_section_patched(endian: Endian, cpu: &str, ip: u64, sp: u64, ok: bool, patch: &[(usize, u64)]) -> Section {
+    let base = context_section(endian, cpu, ip, sp, ok);
+    if patch.is_empty() { return base; }
+    let mut bytes = base.get_contents().unwrap();
+    for (off, v) in patch {
+        let b = if matches!(endian, Endian::Big) { v.to_be_bytes() } else { v.to_le_bytes() };
+        bytes[*off..*off + 8].copy_from_slice(&b);
+    }
+    Section::with_endian(endian).append_bytes(&bytes)
+}
+
 pub fn context_section(endian: Endian, cpu: &str, ip: u64, sp: u64, ok: bool) -> Section {
     let (sec, flag_off) = match cpu {
         "amd64" => (synth::amd64_context(endian, ip, sp), 0x30usize),
@@ -90,7 +103,7 @@ pub fn build(spec: &DumpSpec) -> Vec<u8> {
     if let Some(e) = &spec.exception {
         if e.has_ctx {
             let endian = if spec.big_endian { Endian::Big } else { Endian::Little };
-            let ctx = context_section(endian, &spec.cpu, e.ctx_ip, e.ctx_sp, e.ctx_ok).get_contents().unwrap();
+            let ctx = context_section_patched(endian, &spec.cpu, e.ctx_ip, e.ctx_sp, e.ctx_ok, &e.ctx_patch).get_contents().unwrap();
             let marker = exc_marker(endian);
             let at = find(&first, &marker).expect("exception context marker") + marker.len();
             return build_pass(spec, (ctx.len() as u32, at as u32));
@@ -140,7 +153,7 @@ fn build_pass(spec: &DumpSpec, exc_ctx: (u32, u32)) -> Vec<u8> {
         x.thread_context = exc_ctx;
         d = d.add_exception(x);
         if e.has_ctx {
-            let ctx = context_section(endian, &spec.cpu, e.ctx_ip, e.ctx_sp, e.ctx_ok);
+            let ctx = context_section_patched(endian, &spec.cpu, e.ctx_ip, e.ctx_sp, e.ctx_ok, &e.ctx_patch);
             let marked = Section::with_endian(endian).append_bytes(&exc_marker(endian)).append_bytes(&ctx.get_contents().unwrap());
             d = d.add(marked);
         }
